@@ -91,6 +91,112 @@ def getters(facts, crates=None):
     return out
 
 
+def ret_facts(facts, crates=None):
+    """facts about the Ok / Some payload of small functions that return `Result<int | (int, ..), E>` / `Option<..>`:
+    relations between the payload components, between a component and the length of something behind a pointer parameter,
+    and component intervals -- evaluated in the function's own interval state at every place that builds the success value"""
+    from .mir import op_const, op_local, Term
+    crates = [c for c in (crates or facts.crates) if c in facts.crates]
+    out = {}
+    RE = __import__("re").compile(r"^core::(result::Result|option::Option)<(\((?:[ui](?:8|16|32|64|size), )*[ui](?:8|16|32|64|size),?\)|[ui](?:8|16|32|64|size))[,>]")
+    for c in crates:
+        for b in facts.all_bodies(c, kinds=("fn",)):
+            rty = b.locals[0][0]
+            m = RE.match(rty)
+            if not m or len(b.blocks) > 300 or b.generated:
+                continue
+            succ = 0 if "Result" in m.group(1) else 1
+            sites = []
+            ok = True
+            for bb, blk in enumerate(b.blocks):
+                if blk.cleanup:
+                    continue
+                for j, st in enumerate(blk.stmts):
+                    if st[0] != "A" or st[1] != [0, []]:
+                        continue
+                    rv = st[2]
+                    if rv[0] == "agg" and rv[1][0] == "adt" and rv[1][1] in ("core::result::Result", "core::option::Option"):
+                        if rv[1][2] == succ:
+                            sites.append((bb, j, rv[2][0] if rv[2] else None))
+                    else:
+                        ok = False
+                t = blk.term
+                if t.kind == "call" and t.dest == [0, []] and not t.callee.endswith("from_residual"):
+                    ok = False
+            if not ok or not sites:
+                continue
+            iv = Intervals(b)
+            if not iv.converged:
+                continue
+            acc = None
+            for bb, j, op in sites:
+                st = iv.state_before_stmt(bb, j)
+                if st is None:
+                    continue
+                if op is None:
+                    acc = set()
+                    break
+                comps = []     # (payload path, operand)
+                ol = op_local(op)
+                if ol is not None and iv.tr[ol] is None:
+                    # a tuple built just before
+                    tdef = None
+                    for jj in range(j - 1, -1, -1):
+                        s2 = b.blocks[bb].stmts[jj]
+                        if s2[0] == "A" and s2[1] == [ol, []]:
+                            tdef = s2[2]
+                            break
+                    if tdef is None or tdef[0] != "agg" or tdef[1][0] != "tuple":
+                        acc = set()
+                        break
+                    for i, o in enumerate(tdef[2]):
+                        comps.append(((("d", succ), ("f", 0), ("f", i)), o))
+                else:
+                    comps.append(((("d", succ), ("f", 0)), op))
+                here = set()
+                terms = {}
+                for path, o in comps:
+                    r = iv.rng(st, o)
+                    if r is None:
+                        continue
+                    terms[path] = iv.term_of(st, o)
+                    ty = iv.op_type(o) if o[0] != "k" else o[1]
+                    tr = ty_range(ty) if ty else None
+                    if tr is not None and r != tr:
+                        here.add((path, "rng", ("rng", r[0], r[1])))
+                for path, t in terms.items():
+                    if t is None:
+                        continue
+                    for (a, o2, b2) in st.rel:
+                        if a == t and isinstance(b2, tuple) and b2[0] == "L" and isinstance(b2[1], int) and 0 < b2[1] <= b.argc \
+                                and b.locals[b2[1]][0].startswith("&"):
+                            here.add((path, o2, ("Lp", b2[1], tuple(b2[2]))))
+                            if o2 == "<":
+                                here.add((path, "<=", ("Lp", b2[1], tuple(b2[2]))))
+                    for path2, t2 in terms.items():
+                        if path2 != path and t2 is not None:
+                            if iv.has_rel(st, t, "<", t2):
+                                here.add((path, "<", ("ret", path2)))
+                                here.add((path, "<=", ("ret", path2)))
+                            elif iv.has_rel(st, t, "<=", t2):
+                                here.add((path, "<=", ("ret", path2)))
+                # interval facts are joined by hull, relations by intersection
+                if acc is None:
+                    acc = here
+                else:
+                    rel_a = {x for x in acc if x[1] != "rng"} & {x for x in here if x[1] != "rng"}
+                    ra = {x[0]: x[2] for x in acc if x[1] == "rng"}
+                    rh = {x[0]: x[2] for x in here if x[1] == "rng"}
+                    rng = set()
+                    for k in ra:
+                        if k in rh:
+                            rng.add((k, "rng", ("rng", min(ra[k][1], rh[k][1]), max(ra[k][2], rh[k][2]))))
+                    acc = rel_a | rng
+            if acc:
+                out[b.path] = (succ, sorted(acc, key=repr))
+    return out
+
+
 def promoted_ranges(facts):
     """promoted constants that are integer ranges: `&(0..=6)` -> {promoted path: (start, end, inclusive)}"""
     from .mir import op_const
@@ -129,6 +235,11 @@ def register_getters(facts, crates=None):
 
 def register(facts, crates=None):
     register_getters(facts, crates)
+    if getattr(facts, "_ret_facts", None) is None:
+        intervals.RET_FACTS.clear()
+        facts._ret_facts = ret_facts(facts, crates)
+    intervals.RET_FACTS.clear()
+    intervals.RET_FACTS.update(facts._ret_facts)
     if getattr(facts, "_retsum", None) is None:
         facts._retsum = compute(facts, crates)
     intervals.RET_RANGES.clear()
